@@ -435,11 +435,16 @@ func (ctx *Ctx) cmpLC(lc lc, path []byte, cond op, right []byte) bool {
 	for i := 0; i < ctx.ln; i++ {
 		v := &ctx.vars[i]
 		if v.key == ctx.bufS[0] {
+			val := v.val
+			if val == nil && len(v.buf) > 0 {
+				// Special case: var is a byte slice.
+				val = &v.buf
+			}
 			switch lc {
 			case lcLen:
-				ctx.Err = v.ins.Length(v.val, &ctx.bufI, ctx.bufS[1:]...)
+				ctx.Err = v.ins.Length(val, &ctx.bufI, ctx.bufS[1:]...)
 			case lcCap:
-				ctx.Err = v.ins.Capacity(v.val, &ctx.bufI, ctx.bufS[1:]...)
+				ctx.Err = v.ins.Capacity(val, &ctx.bufI, ctx.bufS[1:]...)
 			default:
 				return false
 			}
